@@ -122,6 +122,7 @@ func (mdb *MassDBV1) prePlotWork(cache *MemCache) error {
 
 	var logCheckpointInterval = hmA.volume / 50
 	var checkpoint = hmA.ReadCheckpoint()
+	checkpoint -= checkpoint & 1 // windows start at even slots; builds that recorded startPoint+1 left odd checkpoints behind
 	logging.CPrint(logging.INFO, fmt.Sprintf("load checkpoint for HashMapA: %d/%d (%d/%d)", checkpoint, hmA.volume, checkpoint/logCheckpointInterval, 50),
 		logging.LogFormat{"bit_length": mdb.bl, "pub_key": hex.EncodeToString(mdb.pubKey.SerializeCompressed())})
 
@@ -175,7 +176,7 @@ func (mdb *MassDBV1) prePlotWork(cache *MemCache) error {
 		hmA.data.Sync() // write pre-plot data first
 		verifhook.Point("plot.A.dataSynced", mdb, uint64(startPoint), uint64(endPoint))
 
-		hmA.checkpoint = startPoint + 1
+		hmA.checkpoint = endPoint
 		hmA.UpdateCheckpoint()
 		hmA.data.Sync() // then write new checkpoint
 		verifhook.Point("plot.A.checkpointed", mdb, uint64(startPoint), uint64(endPoint))
